@@ -286,9 +286,14 @@ theorem replicate_snoc_append (n : Nat) (a : Char) (l : Str) :
 /-- The bracket-counter invariant of `serialize_cdata`: with `j` brackets already written (only
     possible while the counter is saturated at 2) and `k` brackets pending, reading the rest of
     the output back as section content yields all `j + k` brackets and then the input. -/
+theorem afterSection_cr (rest : Str) :
+    afterSection ('&' :: '#' :: 'x' :: 'D' :: ';' :: rest) = (afterSection rest).map ('\r' :: ·) := by
+  simp [afterSection]
+
 theorem cdataGo_sections
     (hO : cdataOpen = ['<','!','[','C','D','A','T','A','['])
     (hS : cdataSplit = [']',']',']',']','>'] ++ cdataOpen ++ ['>'])
+    (hR : cdataCr = [']',']','>'] ++ ['&','#','x','D',';'] ++ cdataOpen)
     (hC : cdataClose = [']',']','>']) (cs : Str) :
     ∀ j k, k ≤ 2 → (k < 2 → j = 0) →
       inSection (List.replicate j ']' ++ serializeCdataGo k cs) = some (List.replicate (j + k) ']' ++ cs) := by
@@ -344,9 +349,18 @@ theorem cdataGo_sections
       · simp only [hg, if_false]
         have h0 := ih 0 0 (by omega) (by intro; rfl)
         simp only [List.replicate_zero, List.nil_append, Nat.zero_add] at h0
-        rw [← List.append_assoc, List.replicate_append_replicate,
-          inSection_brackets_then (j + k) c _ hb (fun h => absurd h hg), h0]
-        simp
+        by_cases hr : c = '\r'
+        · subst hr
+          simp only [if_true, hR, hO]
+          have : List.replicate j ']' ++ (List.replicate k ']' ++ ([']', ']', '>'] ++ ['&', '#', 'x', 'D', ';'] ++ ['<','!','[','C','D','A','T','A','['] ++ serializeCdataGo 0 cs))
+              = List.replicate (j + k) ']' ++ ']' :: ']' :: '>' :: ('&' :: '#' :: 'x' :: 'D' :: ';' :: ('<' :: '!' :: '[' :: 'C' :: 'D' :: 'A' :: 'T' :: 'A' :: '[' :: serializeCdataGo 0 cs)) := by
+            rw [← List.append_assoc, List.replicate_append_replicate]; simp
+          rw [this, inSection_brackets_end, afterSection_cr, afterSection_open, h0]
+          simp
+        · simp only [hr, if_false]
+          rw [← List.append_assoc, List.replicate_append_replicate,
+            inSection_brackets_then (j + k) c _ hb (fun h => absurd h hg), h0]
+          simp
 
 /-! ### Absence of `]]>` in text serialised with `unescaped_gt` -/
 
